@@ -445,3 +445,46 @@ func compositeLen(p *core.Prog, rel, name string) int {
 	}
 	return -1
 }
+
+// pureBoolHelper reports whether callee is a small module function returning a
+// single bool that writes no field (transitively) - a predicate helper that a
+// refactor may split out of a decision function. Rules that inline a decision
+// function inline such helpers beneath it, so that extracting part of the
+// decision into a helper does not change what the rule sees.
+func pureBoolHelper(p *core.Prog, callee *ssa.Function) bool {
+	if callee == nil || callee.Blocks == nil || !core.InModule(callee) {
+		return false
+	}
+	res := callee.Signature.Results()
+	if res.Len() != 1 {
+		return false
+	}
+	if b, ok := res.At(0).Type().Underlying().(*types.Basic); !ok || b.Kind() != types.Bool {
+		return false
+	}
+	if len(p.MayWrite(callee)) != 0 {
+		return false
+	}
+	n := 0
+	for _, b := range callee.Blocks {
+		for _, ins := range b.Instrs {
+			n++
+			switch ins.(type) {
+			case *ssa.Go, *ssa.Defer, *ssa.Send, *ssa.Select, *ssa.MapUpdate:
+				return false
+			}
+		}
+	}
+	return n <= 120
+}
+
+// underFrame reports whether the current frame is fn or is nested below an
+// inlined activation of fn.
+func underFrame(x *core.X, fn *ssa.Function) bool {
+	for f := x.Fr; f != nil; f = f.Parent {
+		if f.Fn == fn {
+			return true
+		}
+	}
+	return false
+}
